@@ -4,6 +4,7 @@ Generator of `segno.make_sequence` calls (public API), correspondence with the L
 (`model seq`), judging of every returned symbol (`judge sym`: c02, c03, c04 capacity fit, c13) and of the
 sequence (`judge seq`: positions, total, parity = XOR of the message bytes as converted by the harness's
 independent text -> bytes policy of enc.py, reassembly, count / version requests)."""
+import random
 from core import *
 from symbols import *
 
@@ -277,7 +278,64 @@ def gen_sequences(rnd, tier):
         yield SeqCase(content, kw, 'malformed')
 
 
+def _seq_call(content, kw):
+    return segno.make_sequence(content, **kw)
+
+
+def _seq_snap(seq):
+    return tuple((q.version, q.error, q.mask, tuple(bytes(r) for r in q.matrix)) for q in seq)
+
+
+def _seq_sequential(args):
+    out = []
+    for content, kw in args:
+        try:
+            out.append(('ok', _seq_snap(_seq_call(content, kw))))
+        except Exception as ex:  # noqa
+            out.append(('exc', exc_name(ex)))
+    return out
+
+
+def concurrency_pass(rnd, res):
+    """the same `make_sequence` calls under the deterministic scheduler (8 threads, one at a time, seeded; groups of 8 calls of
+    one version, every version used for the first time by 8 threads at once) must give the sequences of a sequential fresh process,
+    at return and after all calls (sequences are held)"""
+    import multiprocessing
+    import symbols
+    seed = int(os.environ.get('VERIF_SEED', '1'))
+    calls = []
+    for v in (1, 2, 3, 5, 7, 10, 14):
+        for _ in range(8):
+            mode = rnd.choice([1, 2, 4])
+            n = rnd.randint(2, 3) * max_chars(v, 1, mode, 20) - rnd.randint(0, 5)
+            kw = dict(version=v, error='L', boost_error=False) if rnd.random() < 0.5 else dict(symbol_count=rnd.randint(2, 3), error='L', boost_error=False)
+            if rnd.random() < 0.5:
+                kw['mask'] = rnd.randrange(8)
+            calls.append((content_for(rnd, mode, max(2, n)), kw))
+    ctx = multiprocessing.get_context('fork')
+    with ctx.Pool(1) as pool:
+        ref = pool.apply(_seq_sequential, (calls,))
+    with ctx.Pool(1) as pool:
+        outs = pool.apply(symbols._scheduled_child, (calls, seed, 8, 0.1, _seq_call, _seq_snap))
+    for (content, kw), r, o in zip(calls, ref, outs):
+        res.evaluations += 1
+        if r[0] != 'ok':
+            continue
+        bad = None
+        if o[0] != 'ok':
+            bad = f'concurrent-call-raised-{o[1]}-sequential-call-returned-a-sequence'
+        elif o[1] != r[1]:
+            bad = 'sequence-differs-from-sequential-result-at-return'
+        elif o[2] != r[1]:
+            bad = 'sequence-changed-after-it-was-returned'
+        if bad:
+            res.violations.append(dict(property_field='c08', verdict=bad, call=f'segno.make_sequence({content!r}, **{kw!r})  [deterministic scheduler, 8 threads]',
+                                       replay=dict(content=content if not isinstance(content, bytes) else {'bytes': content.hex()}, kw=kw, schedule=dict(seed=seed)), known_id=None))
+    res.count('concurrency-pass:scheduled-calls', len(calls))
+
+
 def run_C08(tier, rnd, st, res):
+    concurrency_pass(random.Random(rnd.random()), res)
     cases = list(gen_sequences(rnd, tier))
     for c in cases:
         impl_sequence(c)
